@@ -539,6 +539,8 @@ def history_world(args, scratch):
     for dd, spec in (args.get('data') or {}).items():
         os.makedirs(H + '/' + dd, exist_ok=True)
         np.savetxt(H + '/' + dd + '/' + spec['file'], make_data(spec['cls'], int(spec['seed']), int(spec['npts'])), fmt='%.6f')
+    if args.get('synth_lib'):
+        write_synth_lib(libdir(H, 'synth11', int(args['synth_lib'])), int(args['synth_lib']), int(args.get('seed', 0)) % 977)
     obs = args['observed']
     out = dict(segments=[], steps=0, digest='', rdigest='', nshared=0, nfs=0, nmpi=0, choices=[], coins=[], violation=None, diverged=None)
     last = None
